@@ -81,3 +81,39 @@ pub async fn prepared(c: &mut FlightSqlServiceClient<Channel>, sql: &str, as_upd
     let _ = p.close().await;
     r
 }
+
+/// The node's WebSocket streaming endpoint (`GET /api/v1/stream` of the real axum router) over an in-memory
+/// transport: hyper serves the router on one half of a duplex, tungstenite's client performs the upgrade on the
+/// other. Returns the ids of the rows of every "data" message, in order, as they arrive.
+pub async fn websocket_subscribe(router: axum::Router, sql: &str) -> Result<std::sync::Arc<std::sync::Mutex<Vec<Vec<i64>>>>, String> {
+    use futures::SinkExt;
+    use tokio_tungstenite::tungstenite::Message;
+    let (client_io, server_io) = tokio::io::duplex(1 << 20);
+    let svc = hyper_util::service::TowerToHyperService::new(router);
+    tokio::spawn(async move {
+        let _ = hyper::server::conn::http1::Builder::new().serve_connection(hyper_util::rt::TokioIo::new(server_io), svc).with_upgrades().await;
+    });
+    let (mut ws, _resp) = tokio_tungstenite::client_async("ws://query-node.sim/api/v1/stream", client_io).await.map_err(|e| format!("websocket handshake: {e}"))?;
+    ws.send(Message::Text(serde_json::json!({"query": sql, "live": true}).to_string())).await.map_err(|e| e.to_string())?;
+    let got: std::sync::Arc<std::sync::Mutex<Vec<Vec<i64>>>> = Default::default();
+    let g2 = got.clone();
+    tokio::spawn(async move {
+        while let Some(Ok(m)) = ws.next().await {
+            if let Message::Text(t) = m {
+                let v: serde_json::Value = serde_json::from_str(&t).unwrap_or_default();
+                match v["type"].as_str() {
+                    Some("data") => {
+                        let ids: Vec<i64> = v["data"].as_array().map(|a| a.iter().filter_map(|r| r["id"].as_i64()).collect()).unwrap_or_default();
+                        g2.lock().unwrap().push(ids);
+                    }
+                    Some("error") => {
+                        g2.lock().unwrap().push(vec![i64::MIN]);
+                        crate::core::sim::log(format!("WEBSOCKET error message: {}", v["data"]));
+                    }
+                    _ => {}
+                }
+            }
+        }
+    });
+    Ok(got)
+}
